@@ -314,8 +314,10 @@ def handle : Handler
             -- unpadded base64 (webbridge lpmTrailerValue, fix D38 of slice C08): the client's view is compared decoded
             let unbin (md : MD) : MD :=
               md.map fun kv => if grpcBin kv.1 then (kv.1, kv.2.map fun v => (b64dec false v []).getD v) else kv
-            let ch := match e with | .grpcws => unbin ch0 | _ => ch0
-            let ct := match e with | .grpcws | .grpcweb => unbin ct0 | _ => ct0
+            -- ... and so do real HTTP response headers / trailers on the HTTP entry points (webbridge headerValues, fix D40;
+            -- judged byte for byte by the `rbin` stream)
+            let ch := match e with | .grpcws | .http | .grpcweb => unbin ch0 | _ => ch0
+            let ct := match e with | .grpcws | .grpcweb | .http => unbin ct0 | _ => ct0
             let qmd := ps.filter (fun p => GB.C19.isValidMetadataKey p.1 && GB.C19.isValidMetadataValue p.2)
             let r : Request := match e with
               | .grpcws => { lines := ps }
